@@ -7,7 +7,11 @@ META = {
             "text, on character boundaries (byte lengths of prefixes), strictly ordered, and separated (also before "
             "the first and after the last) only by whitespace and ;-comments; a successful parse consumes a non-empty "
             "prefix of the tokens that yields the same datum whatever follows it; every proper prefix of that prefix "
-            "is reported Incomplete and the prefix itself is not. The models are tied to the Rust code by "
+            "is reported Incomplete and the prefix itself is not; parse_text returns as remaining text exactly the "
+            "suffix at the first remaining token (none iff none remains), that suffix re-scans to the remaining tokens "
+            "shifted, so the read loop visits each datum once and ends within |tokens| rounds; and no panic branch of "
+            "the parser model (slices on token spans, unwraps, subtractions) is reachable on scanner output. The "
+            "models are tied to the Rust code by "
             "differential runs on generated programs, token soup, random Unicode, mutations of valid programs and "
             "every token-boundary prefix of generated datum sequences (datum in wire form, remaining text, error "
             "class), and the implementation is additionally compared with a token-level specification of 'one "
@@ -16,10 +20,25 @@ META = {
             "Marwood.Parse, Marwood.Num.Text are tied to the code only by differential testing; float parsing and "
             "exact<->inexact conversion are not modelled (values observed by the harness are passed to the model as "
             "an oracle table, a missing entry is reported, never defaulted); error message text is not compared. "
-            "Panic freedom of slicing is covered by the correspondence (debug profile, overflow checks on), not yet by "
-            "a theorem; T11.4 (remaining text re-scans to the remaining tokens) is covered by the read-all "
-            "correspondence and the token-level specification, not yet by a theorem.",
-    "technique": "Lean 4 proof (fuel adequacy, span discipline, token consumption by mutual induction) + randomized model-vs-implementation correspondence + implementation-vs-specification oracle",
+            "Closed theorems (all inputs, no excluded cases): T11.1 scan_total, parse_total, parse_fuel_irrelevant; "
+            "T11.2 scan_discipline; T11.3 parse_one_datum, parse_result_stable; T11.5 parse_cut_incomplete, "
+            "parse_complete_not_incomplete; T11.4 (a) parse_text_remaining (remaining text = the suffix at the span "
+            "start of the first remaining token, none iff no token remains), (b) scan_suffix_at_token, "
+            "scan_offset_shift, parse_text_rescan, parse_suffix_agrees (the suffix re-scans to the remaining tokens "
+            "shifted by the cut offset, strictly fewer than before, and parses as the shifted tokens do over the whole "
+            "text), (c) read_loop_tokenwise, read_loop_each_datum_once, read_loop_terminates, read_loop_lex_error (the "
+            "model's read loop readAllF over the remaining texts equals the loop over the one token list, the tokens "
+            "are the concatenation of the token groups of the data read, and the loop ends within max(1,|tokens|) "
+            "rounds); panic freedom of the parser model on scanner output: scan_tokens_sliceable, "
+            "parse_never_panics_on_scan, parse_scan_never_panics, parse_text_never_panics, read_loop_never_panics "
+            "(every panic site of the model - token-span slices, &span[2..], &span[1..len-1] and its usize "
+            "subtraction, the bracket unwrap, the number-prefix panic!, the radix assertion, i32 negation in "
+            "Ratio::new, &text[span.0..] in parse_text, the model's fuel - is unreachable when the tokens are the "
+            "scanner's for the same text). No _partial theorems. Carried only by the correspondence: that the models "
+            "are the code (in particular that the Rust slices panic exactly where the model's checked slices do: "
+            "debug profile, overflow checks on, every observed panic reported), float text, and the REPL/wasm "
+            "front-end loops being the two-line loop readAllF models (replayed in the harness).",
+    "technique": "Lean 4 proof (fuel adequacy, span discipline, token consumption by mutual induction, scanner shift/suffix lemmas, token-shape invariant for panic freedom) + randomized model-vs-implementation correspondence + implementation-vs-specification oracle",
 }
 MODULE = "Marwood.Proofs.C11"
 THEOREMS = [
@@ -31,6 +50,22 @@ THEOREMS = [
     "Marwood.Proofs.C11.parse_cut_incomplete",
     "Marwood.Proofs.C11.parse_complete_not_incomplete",
     "Marwood.Proofs.C11.parse_result_stable",
+    # T11.4
+    "Marwood.Proofs.C11.scan_suffix_at_token",
+    "Marwood.Proofs.C11.scan_offset_shift",
+    "Marwood.Proofs.C11.parse_text_remaining",
+    "Marwood.Proofs.C11.parse_text_rescan",
+    "Marwood.Proofs.C11.parse_suffix_agrees",
+    "Marwood.Proofs.C11.read_loop_tokenwise",
+    "Marwood.Proofs.C11.read_loop_each_datum_once",
+    "Marwood.Proofs.C11.read_loop_terminates",
+    "Marwood.Proofs.C11.read_loop_lex_error",
+    # panic freedom of the parser model on scanner output
+    "Marwood.Proofs.C11.scan_tokens_sliceable",
+    "Marwood.Proofs.C11.parse_never_panics_on_scan",
+    "Marwood.Proofs.C11.parse_scan_never_panics",
+    "Marwood.Proofs.C11.parse_text_never_panics",
+    "Marwood.Proofs.C11.read_loop_never_panics",
     # regenerated from lex.rs / char.rs / opcode.rs / cell.rs on every run (translate/tables.py)
     "Marwood.Proofs.Tables.char_classes_agree",
     "Marwood.Proofs.Tables.named_chars_sound",
